@@ -19,15 +19,20 @@ def load_replay(path):
 
 
 def sem_check(prop, tier, replay, opts, kinds_sem=(), pairs=(), use_bad=False, use_fails=None, level="model_checking",
-              rule="", assumptions=()):
+              rule="", assumptions=(), want=("sem",), trace_every=0, max_traces=3000, families=None, extra=None, vm_every=1):
     v = C.Verdict(prop, tier)
     rc = None
     if replay:
         rp = load_replay(replay)
         rc = [rp["case"]]
-    R = SC.run_sem(prop, tier, v, opts=opts, replay_cases=rc)
+    R = SC.run_sem(prop, tier, v, opts=opts, replay_cases=rc, want=want, trace_every=trace_every,
+                   max_traces=max_traces, families=families, vm_every=vm_every)
     samples = SC.classify(prop, R, v, kinds_sem=kinds_sem, pairs=pairs, use_bad=use_bad, use_fails=use_fails)
     cov = SC.coverage(R, samples, rule)
+    if R.get("cost_ratio"):
+        cov["max_steps_over_reference_cost"] = R["cost_ratio"]
+    if extra:
+        extra(R, v, cov)
     return v.finish(level, cov, list(assumptions))
 
 
@@ -45,10 +50,25 @@ def c01(tier, replay):
                                   "case relations of the model alphabet (spec/Alphabet.tla) are transcribed from the UCD by hand"])
 
 
+def trace_notes(R, v, cov):
+    """Runs whose dispatch sequence is not a behaviour of the machine specification are a diagnostic
+    (the specification may not know a refactored executor); the verdict rests on observables."""
+    tm = [j for j in R["jlines"] if j["kind"] == "trace"]
+    cov["trace_shape_mismatches"] = len(tm)
+    if tm:
+        v.note("%d recorded run(s) are not behaviours of the machine specification (first: %s)" % (len(tm), json.dumps(tm[0])[:300]))
+
+
 @check("C02")
 def c02(tier, replay):
-    return sem_check("C02", tier, replay, [], pairs=SC.PAIRS["C02"], rule=SEM_RULE + " Violations: any (haystack, start) at which "
-                     "the Pike VM's match sequence differs from the backtracker's on the same program (UTF-8 and ASCII modes).")
+    return sem_check("C02", tier, replay, [], kinds_sem=("vm",), pairs=SC.PAIRS["C02"], want=("sem", "vm", "trace"),
+                     trace_every=29 if tier == "quick" else 7, max_traces=3000 if tier == "quick" else 40000,
+                     extra=trace_notes, vm_every=12 if tier == "quick" else 1,
+                     rule=SEM_RULE + " Violations: any (haystack, start) at which the Pike VM's match sequence differs from the "
+                     "backtracker's on the same program (UTF-8 and ASCII modes); or BacktrackVM.tla / PikeVM.tla run to completion by TLC "
+                     "on the dumped program disagree with each other or with the engine. states/transitions: TLC states of the judges "
+                     "plus the lock-step trace validation (spec/MCVM.tla, one state per recorded executor step).",
+                     assumptions=["the dumped program (hook verif_program_json) is the program the executors run"])
 
 
 @check("C03")
@@ -70,6 +90,68 @@ def c09(tier, replay):
 def c13(tier, replay):
     return sem_check("C13", tier, replay, [], pairs=SC.PAIRS["C13"], rule=SEM_RULE +
                      " Violations: on an all-ASCII haystack an ASCII entry point's sequence differs from the UTF-8 one's.")
+
+
+@check("C05")
+def c05(tier, replay):
+    return sem_check("C05", tier, replay, ["--no-ascii", "--fuel", "400000"], kinds_sem=("cost", "vm", "traceinv"),
+                     want=("cost", "vm", "trace"), families=["F2"] if tier == "quick" else ["F2", "F3", "F4", "F1"],
+                     trace_every=37 if tier == "quick" else 11, max_traces=2500 if tier == "quick" else 30000,
+                     use_fails=lambda f: True, extra=trace_notes, vm_every=10 if tier == "quick" else 1,
+                     rule="TLC enumerates the nested-quantifier family F2 (thorough: F1-F4) and all haystacks up to the bound; the runner "
+                     "measures, through the step hook, instruction dispatches and the largest backtrack/thread stack of the whole "
+                     "iteration on both executors and both pipelines under a fuel limit; TLC (JudgeCost.tla) computes the cost of the "
+                     "reference ordered search (ESSem.SearchCost) and requires steps, depth <= 24*cost+64; JudgeVM.tla runs both machine "
+                     "specifications to completion on the dumped programs under fuel; MCVM.tla validates sampled runs step by step with "
+                     "the stack bound as an invariant. Fuel exhaustion, panics and process deaths are violations attributed to the case. "
+                     "Non-trivial: every (pattern, haystack) run counts; distinct by construction.",
+                     assumptions=["K=24, K0=64 were calibrated once (largest ratio seen on the repaired tree: 5.5) and frozen"])
+
+
+@check("C06")
+def c06(tier, replay):
+    def checked_build(R, v, cov):
+        # the same cases through a build with debug assertions and overflow checks: the crate's own
+        # debug_assert!s on positions are executable copies of the invariant
+        binp = C.build_runner(profile="checked")
+        import time as _t
+        t0 = _t.time()
+        from . import sem as S
+        work = R["work"]
+        paths, crashes = S.run_runner(binp, "sem", R["cases"], work, ["--no-ascii"], shards=12, label="chk")
+        n = 0
+        for line in open(paths["chk"]):
+            r = json.loads(line)
+            n += 1
+            for f in r["fails"][:2]:
+                h = f.get("h")
+                v.violation("debug-assertions build: /%s/%s on %s: %s [%s]" % (r.get("pats"), r.get("flags"),
+                            r["hays"][h] if h is not None else None, f["what"], f.get("var")),
+                            {"pipeline": "sem", "case": S.small_case(r, h), "kind": "fail-checked", "what": f["what"]})
+            for b in r["bad"][:2]:
+                v.violation("debug-assertions build: bad range /%s/%s: %s" % (r.get("pats"), r.get("flags"), b["what"]),
+                            {"pipeline": "sem", "case": S.small_case(r, b["h"]), "kind": "bad-checked"})
+        for c in crashes:
+            v.violation("debug-assertions build: process died (rc=%s) on case %d" % (c["rc"], c["case"]),
+                        {"pipeline": "sem", "kind": "crash-checked", "case_index": c["case"]})
+        cov["checked_build_cases"] = n
+        os.remove(paths["chk"])
+        C.log("debug-assertions build: %d cases in %.1fs" % (n, _t.time() - t0))
+        trace_notes(R, v, cov)
+
+    return sem_check("C06", tier, replay, [], kinds_sem=("event", "traceinv"), use_bad=True, use_fails=lambda f: True,
+                     want=("sem", "trace"), families=["F1", "F4", "F6", "F7"] if tier == "quick" else ["F1", "F2", "F3", "F4", "F5", "F6", "F7", "F8"],
+                     trace_every=23 if tier == "quick" else 5, max_traces=4000 if tier == "quick" else 50000,
+                     extra=checked_build,
+                     rule="TLC enumerates the families (haystacks mix 1-, 2-, 3- and 4-byte characters at both ends, the empty haystack "
+                     "included); every range of every match of every variant (both executors, both pipelines, ASCII entry points, every "
+                     "start index) is checked for 0<=s<=e<=len and char boundaries by slicing; a panic, abort or hang is a violation of "
+                     "its case; the default (unchecked, pointer-position) build's recorded executor steps are validated against the "
+                     "machine specifications (MCVM.tla) with PosInRange / PosOnBoundary / GroupsWellFormed as invariants on every state, "
+                     "and every recorded position is checked directly (EventOk); the same cases are re-run on a build with debug "
+                     "assertions and overflow checks.",
+                     assumptions=["undefined behaviour that leaves every observable position valid is not visible",
+                                  "memchr is trusted"])
 
 
 def setup():
